@@ -3,6 +3,7 @@ package main
 import (
 	"fmt"
 	"go/token"
+	"go/types"
 	"sort"
 	"strings"
 
@@ -17,7 +18,7 @@ func propC11() Property {
 		Explanation: "R1 (classification tables vs shipped specs): every header field of every spec/*.xml is in Tag.IsHeader's case set, every trailer field in IsTrailer's, and no field that occurs in the body of any shipped message (components and groups expanded) is in either. " +
 			"R2 (leading order): the parse routine extracts BeginString(8), BodyLength(9), MsgType(35) with those constants in that order, returns the error of each on its non-nil edge, the specific extractor rejects a different tag, and all three precede every other field extraction. " +
 			"R3 (length guard): a parse error is produced exactly under Σ field lengths ≠ BodyLength(9) (unless the message carried XMLData), and when tag 9 cannot be read. R4 (= C10-R3): reader and writer exclude exactly {8,9,10} from the length. " +
-			"R5 (section routing): in the field loop a field is added to Header under isHeaderField, to Trailer under ¬header ∧ isTrailerField, to Body otherwise; the classification helpers consult the Tag tables and the transport dictionary only, and every call passes the transport dictionary. R6: TagValue.parse takes the FIRST '=' as the separator: its fixed-position fast path probes ascending positions and records the position it probed.",
+			"R5 (section routing): in the field loop a field is added to Header under isHeaderField, to Trailer under ¬header ∧ isTrailerField, to Body otherwise; the classification helpers consult the Tag tables and the transport dictionary only, and every call passes the transport dictionary. R6: TagValue.parse takes the FIRST '=' as the separator: its fixed-position fast path probes ascending positions and records the position it probed. R7: every FieldMap accessor call in the engine with a constant tag on a message's Header / Body / Trailer addresses the section Tag.IsHeader / IsTrailer assign to that tag. R8: Header, Body and Trailer are each cleared before the parse files a field into them (a reused Message exposes only what is on the wire); the flag that lifts the BodyLength comparison is set only on the path that extracted an XML payload with the length-driven extractor.",
 		NotDecided: "slicing arithmetic of field values, dictionary-guided group parsing (C13), that raw bytes are returned unchanged.",
 		Rules: []RuleDef{
 			{ID: "C11-R1", Desc: "header/trailer tag tables vs shipped specs", Min: 9, Run: c11R1},
@@ -26,6 +27,8 @@ func propC11() Property {
 			{ID: "C11-R4", Desc: "length exclusion sets (shared with C10-R3)", Min: 3, Run: c10R3},
 			{ID: "C11-R5", Desc: "section routing of parsed fields", Min: 3, Run: c11R5},
 			{ID: "C11-R6", Desc: "tag/value separator is the first '='", Min: 4, Run: c11R6},
+			{ID: "C11-R7", Desc: "constant-tag accesses address the section the parser files the tag in", Min: 20, Run: sectionAccessRule},
+			{ID: "C11-R8", Desc: "sections cleared before the parse; BodyLength exemption only after XML extraction", Min: 4, Run: c11R8},
 		},
 	}
 }
@@ -415,4 +418,192 @@ func c11R6(c *Ctx) {
 		}
 	}
 	c.Check(okGen, name, p.Pos(fn.Pos()), "first-equals-general", "fallback uses bytes.IndexByte (first occurrence)", "the fallback separator search is not a first-occurrence search")
+}
+
+// C11-R7 (also C01-R6, C07-R5): a field is looked for in the section the parser files it in.
+// Every FieldMap accessor call with a constant tag whose receiver is the Header / Body /
+// Trailer of a Message addresses the section that Tag.IsHeader / Tag.IsTrailer assign to
+// that tag (the tables R1 compares with the specs). A flag read from the wrong section is
+// simply never found: the SequenceReset handler, for instance, would take every gap fill
+// for a reset.
+func sectionAccessRule(c *Ctx) {
+	p := c.P
+	isH := p.caseSetOf(p.Method(modPath, "Tag", "IsHeader"))
+	isT := p.caseSetOf(p.Method(modPath, "Tag", "IsTrailer"))
+	if len(isH) < 10 || len(isT) < 1 {
+		c.Undecided("", "-", "case-sets", fmt.Sprintf("IsHeader has %d cases, IsTrailer %d", len(isH), len(isT)))
+		return
+	}
+	fHeader := p.Field(modPath, "Message", "Header")
+	fBody := p.Field(modPath, "Message", "Body")
+	fTrailer := p.Field(modPath, "Message", "Trailer")
+	n := 0
+	for _, fn := range p.FuncsIn(modPath) {
+		for _, cl := range Calls(fn) {
+			cal := cl.Common().StaticCallee()
+			if cal == nil || cal.Signature.Recv() == nil || typeName(cal.Signature.Recv().Type()) != "FieldMap" {
+				continue
+			}
+			args := cl.Common().Args
+			if len(args) < 2 || typeName(args[1].Type()) != "Tag" {
+				continue
+			}
+			tag, isC := constIntOf(args[1])
+			if !isC {
+				continue
+			}
+			ro := p.Origin(args[0])
+			sec := ""
+			ro.Mentions(func(x *Org) bool {
+				if x.Kind == "field" && sec == "" {
+					switch x.Field {
+					case fHeader:
+						sec = "Header"
+					case fBody:
+						sec = "Body"
+					case fTrailer:
+						sec = "Trailer"
+					}
+				}
+				return false
+			})
+			if sec == "" {
+				continue
+			}
+			want := "Body"
+			if isH[tag] {
+				want = "Header"
+			} else if isT[tag] {
+				want = "Trailer"
+			}
+			n++
+			c.Check(sec == want, FuncName(fn), p.InstrPos(cl.(ssa.Instruction)), fmt.Sprintf("section-of-%d", tag), fmt.Sprintf("tag %d accessed in the %s", tag, sec),
+				fmt.Sprintf("tag %d is accessed in the message's %s, but the parser files it in the %s (Tag.IsHeader/IsTrailer): a read never finds the field, a write puts it where the peer's parser and this engine's own handlers do not look", tag, sec, want))
+		}
+	}
+	if n < 20 {
+		c.Violation("", "-", "few-section-accesses", fmt.Sprintf("only %d constant-tag accesses to message sections found (expected dozens)", n))
+	}
+}
+
+// C11-R8: (a) a parse starts from empty sections — Header, Body and Trailer are each cleared
+// before the first field is filed; (b) the only exemption from the BodyLength comparison is a
+// message whose XML payload was actually extracted with the length-driven extractor: the flag
+// that lifts the comparison is set to true only on the path that calls that extractor.
+func c11R8(c *Ctx) {
+	p := c.P
+	parse, _ := p.parseFn()
+	name := FuncName(parse)
+	add := p.Method(modPath, "FieldMap", "add")
+	secs := map[string]*types.Var{"Header": p.Field(modPath, "Message", "Header"), "Body": p.Field(modPath, "Message", "Body"), "Trailer": p.Field(modPath, "Message", "Trailer")}
+	isClear := func(fn *ssa.Function) bool {
+		if fn == nil || fn.Signature.Recv() == nil || typeName(fn.Signature.Recv().Type()) != "FieldMap" {
+			return false
+		}
+		n := strings.ToLower(fnName(fn))
+		return strings.Contains(n, "clear") || strings.HasPrefix(n, "init")
+	}
+	for sec, f := range secs {
+		var clears, adds []ssa.CallInstruction
+		for _, cl := range Calls(parse) {
+			cal := cl.Common().StaticCallee()
+			if cal == nil || len(cl.Common().Args) == 0 || !p.Origin(cl.Common().Args[0]).Mentions(func(x *Org) bool { return x.Kind == "field" && x.Field == f }) {
+				continue
+			}
+			if isClear(cal) {
+				clears = append(clears, cl)
+			}
+			if cal == add {
+				adds = append(adds, cl)
+			}
+		}
+		ok := len(clears) > 0
+		for _, a := range adds {
+			dom := false
+			for _, cclr := range clears {
+				if InstrDominates(cclr.(ssa.Instruction), a.(ssa.Instruction)) {
+					dom = true
+				}
+			}
+			if !dom {
+				ok = false
+			}
+		}
+		c.Check(ok, name, p.Pos(parse.Pos()), "section-cleared:"+sec, sec+" is cleared before any field is filed into it", "the message's "+sec+" is not cleared before the parse files fields into it: a Message object parsed into a second time keeps "+strings.ToLower(sec)+" fields of the previous message that the new one does not carry, and they are exposed (and re-sent by a rebuild) although they are not on the wire")
+	}
+	// (b) the XML exemption
+	t9 := p.Tag("tagBodyLength")
+	isLen9 := func(o *Org) bool {
+		return o.IsCallTo("(FieldMap).getIntNoLock", "(FieldMap).GetInt") && o.ArgConstInt(0, t9) && o.Res == 0
+	}
+	var cmp *ssa.BinOp
+	ForEachInstr(parse, func(in ssa.Instruction) {
+		if b, ok := in.(*ssa.BinOp); ok && (b.Op == token.NEQ || b.Op == token.EQL) {
+			if isLen9(p.Origin(b.X)) || isLen9(p.Origin(b.Y)) {
+				cmp = b
+			}
+		}
+	})
+	if cmp == nil {
+		return // R3 reports it
+	}
+	// the extractor that is given a length
+	var xmlCalls []ssa.CallInstruction
+	for _, cl := range Calls(parse) {
+		cal := cl.Common().StaticCallee()
+		if cal != nil && p.InModule(cal) && len(cl.Common().Args) == 3 && cal.Signature.Recv() == nil && typeName(cal.Signature.Params().At(0).Type()) == "TagValue" && types.Identical(cal.Signature.Params().At(2).Type(), types.Typ[types.Int]) {
+			xmlCalls = append(xmlCalls, cl)
+		}
+	}
+	ForEachInstr(parse, func(in ssa.Instruction) {
+		st, ok := in.(*ssa.Store)
+		if !ok || !isErrorType(st.Val.Type()) || p.Origin(st.Val).IsNil() {
+			return
+		}
+		d := p.ReachCond(st.Block())
+		if !d.Implies(func(a *Atom) bool { return a.Cond == ssa.Value(cmp) && a.Rel == "!=" }) {
+			return
+		}
+		for _, a := range d.Atoms() {
+			if a.Rel != "" || a.Cond == nil {
+				continue
+			}
+			phi, ok := a.Cond.(*ssa.Phi)
+			if !ok {
+				if u, isU := a.Cond.(*ssa.UnOp); isU {
+					phi, ok = u.X.(*ssa.Phi)
+				}
+			}
+			if !ok {
+				continue
+			}
+			// every edge that makes the flag true comes from the extractor's path
+			var walk func(ph *ssa.Phi, depth int)
+			seen := map[*ssa.Phi]bool{}
+			walk = func(ph *ssa.Phi, depth int) {
+				if seen[ph] || depth > 4 {
+					return
+				}
+				seen[ph] = true
+				for i, e := range ph.Edges {
+					if inner, isPhi := e.(*ssa.Phi); isPhi {
+						walk(inner, depth+1)
+						continue
+					}
+					if v, isC := p.Origin(e).ConstBoolVal(); isC && v {
+						pred := ph.Block().Preds[i]
+						okX := false
+						for _, x := range xmlCalls {
+							if x.Block() == pred || x.Block().Dominates(pred) {
+								okX = true
+							}
+						}
+						c.Check(okX, name, p.InstrPos(pred.Instrs[len(pred.Instrs)-1]), "xml-exemption-only-after-extraction", "the BodyLength exemption is raised only where the XML payload was extracted",
+							"the flag that exempts a message from the BodyLength comparison becomes true on a path that did not extract an XML payload with the length-driven extractor: a message that merely carries the length tag is accepted with any BodyLength")
+					}
+				}
+			}
+			walk(phi, 0)
+		}
+	})
 }
